@@ -54,6 +54,45 @@ Theorem C13_export_subset_clean_refuted :
 Proof. exact export_subset_refuted. Qed.
 Print Assumptions C13_export_subset_clean_refuted.
 
+Theorem C13_export_subset_clean_partial :
+  forall (g : file) (r n : Z) (g' : file),
+    complete_input (drop_feat r g) n = true ->
+    rectify (drop_feat r g) = Some g' -> violations g' = Some [].
+Proof. exact export_subset_clean_partial. Qed.
+Print Assumptions C13_export_subset_clean_partial.
+
+(* Exit status of dclab-verify-dataset (a = number of alerts, not modelled):
+   0 exactly for "no violation, no alert"; 2 / 3 as soon as a violation is
+   reported; 4 when the checker raises; a written file without alerts: 0. *)
+Theorem C13_verify_exit_zero :
+  forall (f : file) (a : Z), 0 <= a ->
+    (verify_exit f a = 0 <-> violations f = Some [] /\ a = 0).
+Proof. exact verify_exit_zero. Qed.
+Print Assumptions C13_verify_exit_zero.
+
+Theorem C13_verify_exit_violations :
+  forall (f : file) (cs : list cue) (a : Z),
+    0 <= a -> violations f = Some cs -> cs <> [] ->
+    (a = 0 -> verify_exit f a = 2) /\ (0 < a -> verify_exit f a = 3).
+Proof. exact verify_exit_violations. Qed.
+Print Assumptions C13_verify_exit_violations.
+
+Theorem C13_verify_exit_raises :
+  forall (f : file) (a : Z), violations f = None -> verify_exit f a = 4.
+Proof. exact verify_exit_raises. Qed.
+Print Assumptions C13_verify_exit_raises.
+
+Theorem C13_exit_status_range :
+  forall (r : bool) (v a : Z), In (exit_status r v a) [0; 1; 2; 3; 4].
+Proof. exact exit_status_range. Qed.
+Print Assumptions C13_exit_status_range.
+
+Theorem C13_writer_output_exit :
+  forall (f : file) (n : Z) (g : file),
+    complete_input f n = true -> rectify f = Some g -> verify_exit g 0 = 0.
+Proof. exact writer_output_exit. Qed.
+Print Assumptions C13_writer_output_exit.
+
 (* A file and a copy holding the same content get the same violations. *)
 Theorem C13_same_after_copy :
   forall f g : file,
